@@ -246,7 +246,9 @@ async fn build_pop(pop: &str, elems: &[Elem], shape: &Shape) -> Pop {
             exec(&owner, &format!(r#"ENSURE PROPOSITION ?x (:s, "{}", :o)"#, e.typ), json!({"s": s, "o": o}), &none).await
         };
         if let Some(c) = err_code(&resp) {
-            panic!("population element {i} could not be created: {c} {resp}");
+            // the harness's own population is not accepted: a tool error, not a finding
+            eprintln!("population element {i} could not be created: {c} {resp}");
+            std::process::exit(3);
         }
         let id = result_of(&resp)["handles"]["x"].as_str().expect("handle").to_string();
         p.tx_create[i] = resp["receipt"]["tx_id"].as_str().map(String::from);
@@ -496,6 +498,9 @@ async fn answer(session: &Session, pop: &Pop, elems: &[Elem], c: &Cmd, extra: &E
 struct Applied {
     principals: HashMap<String, String>,
     deleg_ids: Vec<String>,
+    /// what `settle` still has to do: the revocations, suspensions, the policy and the Space binding
+    revoke_grants: Vec<u64>,
+    revoke_delegs: Vec<u64>,
 }
 
 fn scope_of(v: &Value, pop: &Pop) -> AuthorityScope {
@@ -590,11 +595,22 @@ async fn apply(pop: &Pop, case: &Value, tag: &str) -> Applied {
             revoke_delegs.push(row._id);
         }
     }
-    for id in revoke_grants {
-        gov.revoke_grant(id, SYSTEM_PRINCIPAL).await.expect("revoke_grant");
+    Applied { principals, deleg_ids, revoke_grants, revoke_delegs }
+}
+
+/// The second half of a configuration: revocations, suspensions, the policy and the Space binding.  It runs AFTER the
+/// sessions of the case were opened and used, so that each of these takes effect "on the very next request" of a
+/// session that was already running.
+async fn settle(pop: &Pop, case: &Value, applied: &Applied, tag: &str) {
+    let gov = pop.nexus.governance();
+    let cfg = &case["cfg"];
+    let principals = &applied.principals;
+    let group = format!("kip:group:{tag}");
+    for id in &applied.revoke_grants {
+        gov.revoke_grant(*id, SYSTEM_PRINCIPAL).await.expect("revoke_grant");
     }
-    for id in revoke_delegs {
-        gov.revoke_delegation(id, SYSTEM_PRINCIPAL).await.expect("revoke_delegation");
+    for id in &applied.revoke_delegs {
+        gov.revoke_delegation(*id, SYSTEM_PRINCIPAL).await.expect("revoke_delegation");
     }
     for (p, st) in cfg["pstat"].as_object().unwrap() {
         if st != "active" && p != "own" {
@@ -617,9 +633,7 @@ async fn apply(pop: &Pop, case: &Value, tag: &str) -> Applied {
         gov.publish_policy(PolicyDraft { policy_id, space_id: DEFAULT_SPACE.into(), description: String::new(), statements: sts },
                            SYSTEM_PRINCIPAL).await.expect("publish_policy");
     }
-    let applied = Applied { principals, deleg_ids };
-    bind_space(pop, case, &applied, tag).await;
-    applied
+    bind_space(pop, case, applied, tag).await;
 }
 
 /// Binds the case's policy / owners / Space status (Store::put_space, the host's handle).
@@ -754,7 +768,9 @@ fn writer_battery() -> Vec<(&'static str, Value)> {
 
 async fn part2(case: &Value, elems: &[Elem], out: &mut Vec<Value>, stats: &mut Stats) {
     let pop = build_pop(case["pop"].as_str().unwrap(), elems, &Shape::full(elems.len())).await;
-    let applied = apply(&pop, case, &format!("m{}", case["n"])).await;
+    let tag = format!("m{}", case["n"]);
+    let applied = apply(&pop, case, &tag).await;
+    settle(&pop, case, &applied, &tag).await;
     let before = dump(&pop.nexus).await;
     let mut log = Vec::new();
     for e in case["expect"].as_array().unwrap() {
@@ -863,6 +879,19 @@ async fn main() {
         let full = &fulls[&popname];
         let tag = format!("k{}", case["n"]);
         let applied = apply(full, &case, &tag).await;
+        // every session is opened and used while everything is still in force ...
+        let mut sessions: HashMap<String, (Session, Extra)> = HashMap::new();
+        for e in case["expect"].as_array().unwrap() {
+            let p = e["p"].as_str().unwrap();
+            let (session, extra) = session_of(full, &applied, &case["cfg"], p);
+            for warm in ["DESCRIBE ACCESS", r#"FIND(COUNT(?c)) WHERE { ?c CONCEPT {} }"#, "HISTORY SPACE LIMIT 1"] {
+                let _ = exec(&session, warm, json!({}), &extra).await;
+                stats.commands += 1;
+            }
+            sessions.insert(p.to_string(), (session, extra));
+        }
+        // ... and only then the revocations, suspensions, the policy and the Space binding are written
+        settle(full, &case, &applied, &tag).await;
 
         for e in case["expect"].as_array().unwrap() {
             let p = e["p"].as_str().unwrap();
@@ -897,7 +926,7 @@ async fn main() {
                 stats.clones += 1;
                 clones.insert(key.clone(), Clone_ { pop: cp, answers: HashMap::new() });
             }
-            let (session, extra) = session_of(full, &applied, &case["cfg"], p);
+            let (session, extra) = &sessions[p];
             let mut reported = 0usize;
             let mut suppressed = 0usize;
             for c in &bat {
@@ -905,10 +934,11 @@ async fn main() {
                     continue;
                 }
                 stats.commands += 1;
-                let (got, text) = answer(&session, full, &elems, c, &extra).await;
+                let (got, text) = answer(session, full, &elems, c, extra).await;
                 let permitted = ok && c.needs.iter().all(|q| held.iter().any(|h| h == q));
                 let want: Value;
                 let mut want_text = String::new();
+                let mut asbuilt_want = Value::Null;
                 if !permitted {
                     // a gate p does not pass, or a named Delegation chain that does not resolve: refused
                     want = json!({"err": "NotAuthorized"});
@@ -952,11 +982,18 @@ async fn main() {
                                 bind_space(full, &case, &applied, &tag).await;
                             }
                             let own = &owner_ans[&k];
-                            let rows: Vec<Value> = own["ok"].as_array().cloned().unwrap_or_default().into_iter().filter(|row| {
-                                row.as_str().and_then(|s| s.strip_prefix('#')).and_then(|k| k.parse::<usize>().ok())
-                                    .map(|k| shape.present[k]).unwrap_or(true)
-                            }).collect();
+                            let idx = |row: &Value| row.as_str().and_then(|s| s.strip_prefix('#')).and_then(|k| k.parse::<usize>().ok());
+                            let rows: Vec<Value> = own["ok"].as_array().cloned().unwrap_or_default().into_iter()
+                                .filter(|row| idx(row).map(|k| shape.present[k]).unwrap_or(true)).collect();
                             want = if own.get("err").is_some() { own.clone() } else { json!({"ok": rows}) };
+                            // attribution only: what the read returns if the element that was just written is judged
+                            // by the governance block it carried then (unclassified)
+                            if let Mode::AsOf(at) = &c.mode {
+                                let rows: Vec<Value> = own["ok"].as_array().cloned().unwrap_or_default().into_iter()
+                                    .filter(|row| idx(row).map(|k| if k == *at { view[k - 1]["r0"].as_bool().unwrap_or(false) } else { shape.present[k] })
+                                        .unwrap_or(true)).collect();
+                                asbuilt_want = json!({"ok": rows});
+                            }
                             stats.compared += 1;
                         }
                         _ => {
@@ -992,7 +1029,7 @@ async fn main() {
                             "readable": (1..=n).filter(|i| shape.present[*i]).collect::<Vec<_>>(),
                             "hide_name": (1..=n).filter(|i| shape.hide_name[*i]).collect::<Vec<_>>(),
                             "hide_attrs": (1..=n).filter(|i| shape.hide_attrs[*i]).collect::<Vec<_>>(),
-                            "got": got, "want": want, "clone_text": want_text}));
+                            "got": got, "want": want, "clone_text": want_text, "asbuilt_want": asbuilt_want}));
                         reported += 1;
                     } else {
                         suppressed += 1;
